@@ -82,7 +82,7 @@ variable {α : Type} [Add α] [Sub α] [Mul α] [Div α] [Neg α] [NatCast α] [
 
 /-- **After `add_missing_elements_in_network` no fibre is directly followed by a fibre**, whatever the input line. -/
 theorem no_adjacent_fibres (c : SplitCfg α) (ch : Chain α) : NoAdjFib (addMissingLine c ch) :=
-  addInline_noAdj _
+  addInline_noAdj _ _
 
 /-- **ROADM–fibre junctions are amplified**: a chain leaving a ROADM does not begin with a fibre, a chain entering a
 ROADM does not end with one.  (Junctions with a Fused element, an existing amplifier or a transceiver are left
@@ -94,18 +94,18 @@ theorem roadm_fibre_junction_amplified (c : SplitCfg α) (ch : Chain α) :
   · intro hs e he
     unfold addMissingLine at he
     rw [addInline_head, hs] at he
-    exact addBooster_head _ _ e he
+    exact addBooster_head _ _ _ e he
   · intro hd e he
     unfold addMissingLine at he
     rw [addInline_getLast, addBooster_getLast, hd] at he
-    exact addPreamp_getLast _ _ e he
+    exact addPreamp_getLast _ _ _ e he
 
 /-- the deliberate exceptions: nothing is inserted at a transceiver end, nor when the neighbour of the ROADM is not
 a fibre (Fused, user amplifier) -/
-theorem junction_exceptions (src dst : String) (l : List (Elem α)) :
-    addBooster src .trx l = l ∧ addPreamp dst .trx l = l ∧
-    (∀ e t, l = e :: t → e.isFiber = false → addBooster src .roadm l = l) ∧
-    (∀ e, l.getLast? = some e → e.isFiber = false → addPreamp dst .roadm l = l) := by
+theorem junction_exceptions (src dst : String) (m : Bool) (l : List (Elem α)) :
+    addBooster src .trx m l = l ∧ addPreamp dst .trx m l = l ∧
+    (∀ e t, l = e :: t → e.isFiber = false → addBooster src .roadm m l = l) ∧
+    (∀ e, l.getLast? = some e → e.isFiber = false → addPreamp dst .roadm m l = l) := by
   refine ⟨by simp [addBooster], by simp [addPreamp], ?_, ?_⟩
   · intro e t hl he
     subst hl
@@ -121,7 +121,7 @@ unchanged. -/
 theorem original_order_preserved (c : SplitCfg α) (ch : Chain α) :
     List.Sublist (splitLine c ch.line) (addMissingLine c ch) := by
   unfold addMissingLine
-  exact (addPreamp_sublist _ _ _).trans ((addBooster_sublist _ _ _).trans (addInline_sublist _))
+  exact (addPreamp_sublist _ _ _ _).trans ((addBooster_sublist _ _ _ _).trans (addInline_sublist _ _))
 
 theorem addMissing_endpoints (c : SplitCfg α) (ch : Chain α) :
     (addMissing c ch).src = ch.src ∧ (addMissing c ch).dst = ch.dst ∧
@@ -149,6 +149,93 @@ theorem splitLine_kinds (c : SplitCfg α) (l : List (Elem α)) :
 theorem connectors_defined (dIn dOut eol : α) (l : List (Elem α)) :
     ∀ e ∈ addConn dIn dOut eol l, ConnOK e :=
   addConn_connOK dIn dOut eol l
+
+end
+
+/-! ### Edfa or Multiband_amplifier: the kind of the inserted amplifiers -/
+
+section
+variable {α : Type} [Add α] [Sub α] [Mul α] [Div α] [Neg α] [NatCast α] [LT α] [LE α]
+  [DecidableLT α] [DecidableLE α] [Transc α]
+
+/-- "amplifier" in `no_adjacent_fibres`, `roadm_fibre_junction_amplified`, `original_order_preserved`,
+`addMissing_fixpoint` means Edfa OR Multiband_amplifier: both are the constructor `Elem.edfa` (flag `multi`), the
+inserted element has the same uid either way, and none of those statements depends on the flag. What the flag is:
+
+**on a line without user amplifiers every inserted amplifier — booster, in-line, preamp — is a Multiband_amplifier iff
+the line leaves a ROADM with more than one design band**, whatever the shape of the line and whatever the order in
+which the ROADMs are visited (repaired `_oms_needs_multiband`). -/
+theorem multiband_kinds_follow_design_bands (c : SplitCfg α) (ch : Chain α) (hno : NoAmp (splitLine c ch.line)) :
+    ∀ e ∈ addMissingLine c ch, e.isEdfa = true →
+      e.isMulti = (ch.srcKind == .roadm && decide (1 < ch.srcBands)) := by
+  obtain ⟨hm, hs⟩ := hasMulti_noAmp _ hno
+  have hk : omsKind ch.srcKind ch.srcBands (splitLine c ch.line) = (ch.srcKind == .roadm && decide (1 < ch.srcBands)) := by
+    simp [omsKind, hm, hs]
+  intro e he hamp
+  unfold addMissingLine at he
+  simp only [hk] at he
+  set m := (ch.srcKind == .roadm && decide (1 < ch.srcBands)) with hmdef
+  rcases addInline_kinds m _ e he with h | h
+  · -- e comes from booster / preamp / the split line
+    unfold addBooster at h
+    split at h
+    · rename_i u p rest heq
+      simp only [List.mem_cons] at h
+      rcases h with h | h
+      · subst h; simp [Elem.isMulti, newAmp]
+      · have hmem : e ∈ addPreamp ch.dst ch.dstKind m (splitLine c ch.line) := by rw [heq]; simpa using h
+        unfold addPreamp at hmem
+        split at hmem
+        · simp only [List.mem_append, List.mem_singleton] at hmem
+          rcases hmem with hmem | hmem
+          · rw [hno e hmem] at hamp; simp at hamp
+          · subst hmem; simp [Elem.isMulti, newAmp]
+        · rw [hno e hmem] at hamp; simp at hamp
+    · unfold addPreamp at h
+      split at h
+      · simp only [List.mem_append, List.mem_singleton] at h
+        rcases h with h | h
+        · rw [hno e h] at hamp; simp at hamp
+        · subst h; simp [Elem.isMulti, newAmp]
+      · rw [hno e h] at hamp; simp at hamp
+  · exact h.2
+
+/-- user amplifiers on the line decide first: a Multiband_amplifier anywhere on the OMS makes every inserted amplifier a
+Multiband_amplifier, a (single-band) Edfa makes them Edfas — so design never creates a mixed OMS by itself -/
+theorem inserted_kind_follows_user_amplifiers (sk : EndKind) (bands : Nat) (l : List (Elem α)) :
+    (hasMulti l = true → omsKind sk bands l = true) ∧
+    (hasMulti l = false → hasSingle l = true → omsKind sk bands l = false) := by
+  constructor
+  · intro h; simp [omsKind, h]
+  · intro h1 h2; simp [omsKind, h1, h2]
+
+/-- **Old code, defect (multiband-type-decision, repaired):** with the DESTINATION ROADM visited first its preamp was
+decided before anything else was on the line, and `add_roadm_preamp` did not look at design bands, so it was an
+Edfa; the booster then followed the preamp: an all-Edfa line left a ROADM with two design bands
+(`set_per_degree_design_band` rejected it). The kind depended on the order of the ROADMs in the document. -/
+theorem multiband_dst_first_fails_old (f g : FiberP ℝ) :
+    endAmpKindsOld .roadm .roadm 2 true [Elem.fiber "a" f, Elem.fiber "b" g] = (false, false) ∧
+    endAmpKindsOld .roadm .roadm 2 false [Elem.fiber "a" f, Elem.fiber "b" g] = (true, true) ∧
+    kindsRaise 2 (addInlineOld (addBooster "R1" .roadm false (addPreamp "R0" .roadm false
+      [Elem.fiber "a" f, Elem.fiber "b" g]))) = true ∧
+    omsKind .roadm 2 [Elem.fiber "a" f, Elem.fiber "b" g] = true := by
+  refine ⟨?_, ?_, ?_, ?_⟩ <;>
+    simp [endAmpKindsOld, preampRuleOld, boosterRuleOld, preampInserted, boosterInserted, hasMulti, hasSingle,
+      Elem.isMulti, Elem.isSingle, newAmp, kindsRaise, addInlineOld, addBooster, addPreamp, omsKind]
+
+/-- **Old code, defect (multiband-type-decision, repaired):** a line ending `… Fiber – Fused – ROADM` gets no preamp;
+with two design bands the booster was a Multiband_amplifier, but the in-line amplifier only looked downstream, found
+no amplifier and became an Edfa: a mixed OMS, which `check_oms_single_type` rejects. The repaired completion of the
+same line is all-Multiband. -/
+theorem multiband_fused_end_mixed_fails_old (f g : FiberP ℝ) :
+    let l : List (Elem ℝ) := [.fiber "a" f, .fiber "b" g, .fused "x" 1]
+    let k := endAmpKindsOld .roadm .roadm 2 false l
+    k = (true, true) ∧
+    hasMulti (addInlineOld (addBooster "R0" .roadm k.1 (addPreamp "R1" .roadm k.2 l))) = true ∧
+    hasSingle (addInlineOld (addBooster "R0" .roadm k.1 (addPreamp "R1" .roadm k.2 l))) = true ∧
+    hasSingle (addInline true (addBooster "R0" .roadm true (addPreamp "R1" .roadm true l))) = false := by
+  simp [endAmpKindsOld, preampRuleOld, boosterRuleOld, preampInserted, boosterInserted, hasMulti, hasSingle,
+    Elem.isMulti, Elem.isSingle, newAmp, addInlineOld, addInline, addBooster, addPreamp]
 
 end
 
@@ -432,10 +519,11 @@ Full statement (not proved): if the input uids are unique and none of them has o
 designed network are unique. What is missing is the injectivity of the string formatting. -/
 theorem names_unique_partial {α : Type} [Add α] [Sub α] [Mul α] [Div α] [Neg α] [NatCast α] [LT α] [LE α]
     [DecidableLT α] [DecidableLE α] [Transc α] (c : SplitCfg α) (ch : Chain α) :
-    let mid := addBooster ch.src ch.srcKind (addPreamp ch.dst ch.dstKind (splitLine c ch.line))
+    let m := omsKind ch.srcKind ch.srcBands (splitLine c ch.line)
+    let mid := addBooster ch.src ch.srcKind m (addPreamp ch.dst ch.dstKind m (splitLine c ch.line))
     (mid.map Elem.uid ++ inlineNames mid).Nodup → ((addMissingLine c ch).map Elem.uid).Nodup := by
-  intro mid h
-  exact (addInline_uids mid).nodup_iff.mpr h
+  intro m mid h
+  exact (addInline_uids m mid).nodup_iff.mpr h
 
 /-- **Every amplifier ends up with a gain, an output VOA and — in power mode — a power offset and target**: the
 operating point `set_one_amplifier` computes is total (gain, `out_voa`, `in_voa` are plain numbers for every
